@@ -453,6 +453,10 @@ func arithLInt(g *G, ops []string) {
 		if i%12 != 0 {
 			y.E = x.E - gap
 		}
+		if i%20 == 2 { // precisions beyond the 128-entry power-of-ten table
+			c.P = []int{129, 130, 150, 200}[g.R.Intn(4)]
+			c.Emax, c.Emin = 100000, -100000
+		}
 		if i%20 == 1 { // a dividend longer than the gap, the divisor's exponent more than 128 above the dividend's
 			nd := g.R.between(131, 220)
 			x = finDec(g.R.bool(), g.R.digits(nd), g.R.between(-5, 5))
@@ -483,6 +487,9 @@ func arithLInt(g *G, ops []string) {
 			}
 			g.emit(mkA(op, c, x, y, q, "", fresh), op)
 			aliased(g, op, c, x, y, q)
+			if (gap > 126 || gap < -126 || i%20 <= 2) && x.F == 0 && y.F == 0 { // into a destination that held a non-finite value
+				g.emit(mkA(op, c, x, y, q, "", specialDecs[g.R.Intn(len(specialDecs))]), op+"/pre")
+			}
 		}
 	}
 }
